@@ -23,10 +23,10 @@ cd "$wt"
 if ! git apply --3way "$dir/patch.diff" 2>/dev/null && ! git apply "$dir/patch.diff" 2>/dev/null; then res false false false false false; cleanup; exit 3; fi
 # share the clean build's dependency artifacts to save time
 mkdir -p "$wt/target"; cp -a /tmp/confirm-clean/target/debug "$wt/target/" 2>/dev/null
-if ! CARGO_TARGET_DIR="$wt/target" cargo build --offline -q 2>/tmp/confirm-build.err; then res true false false false false; cleanup; exit 4; fi
+if ! CARGO_TARGET_DIR="$wt/target" cargo build --offline -q 2>"$wt.build.err"; then res true false false false false; cleanup; exit 4; fi
 tests=true
-CARGO_TARGET_DIR="$wt/target" cargo test --workspace --no-fail-fast --offline 2>&1 | tee /tmp/confirm-test.log | grep -E "^test [^ ]+ \.\.\. FAILED" | grep -v test_run_itself | grep -q . && tests=false
-grep -q "^test result" /tmp/confirm-test.log || tests=false
+CARGO_TARGET_DIR="$wt/target" cargo test --workspace --no-fail-fast --offline 2>&1 | tee "$wt.test.log" | grep -E "^test [^ ]+ \.\.\. FAILED" | grep -v test_run_itself | grep -q . && tests=false
+grep -q "^test result" "$wt.test.log" || tests=false
 fw=true; pw=true
 for i in 1 2; do if (cd "$dir" && timeout 300 bash ./demo.sh "$wt/target/debug/cicada" >/dev/null 2>&1); then fw=false; fi; done
 for i in 1 2; do if ! (cd "$dir" && timeout 300 bash ./demo.sh "$clean_bin" >/dev/null 2>&1); then pw=false; fi; done
